@@ -32,7 +32,7 @@ from typing import Any, Dict, List, Set
 from engine.srcmatch import U
 from engine.abseval import OTHER, Joined, Machine, mentioned_chars
 from engine.fold import EnumMember, Folder, Regex
-from engine.model import AnalysisError, Program, dotted
+from engine.model import AnalysisError, Program, dotted, walk_no_nested
 from engine.pyx import PyxFile, if_chain_byte_tests, bytes_literal
 
 LEVEL = 'proof'
@@ -161,6 +161,8 @@ def run(ctx: Any, prog: Program) -> None:
     ctx.rule('C02.T4', 'terminal facts: closing quote returns STRING; "\\"" dispatches to the handler; EOF gives EOF', floor=3)
     ctx.rule('C02.T5', 'escape decoding is gated by allow_escapes and uses only the ESCAPES table', floor=2)
     ctx.rule('C02.T6', 'escaped text has no raw quote, and no raw line break in single-line mode', floor=4)
+    ctx.rule('C02.T8', 'the character source hands every character of the input on without looking at it', floor=3)
+    ctx.rule('C02.T9', 'the string handler tests only fixed configuration and state it initialises itself', floor=1)
     ctx.rule('C02.T7', 'Cython tables (decode chain, encode chain, pre-scan) equal the Python tables', floor=20)
 
     ESC: Dict[str, str] = fold.global_('ESCAPES')
@@ -326,6 +328,72 @@ def run(ctx: Any, prog: Program) -> None:
     if not em_ok and not (len(mrets) == 1 and isinstance(mrets[0].value, ast.Subscript)):
         raise AnalysisError('_escape_matcher has an unrecognised shape')
     ctx.check('C02.T2', em_ok, tk, mrets[0], '_escape_matcher must return ESCAPES_INV[match.group()]')
+
+    # ---- T8: the obligations above are about what the handler does with the characters it is given; they describe the tokenizer
+    # only if the handler is given *every* character.  _next_char therefore returns an element of the chunk (or None) and takes no
+    # decision on what that element is: a filter here (a BOM skipped, a NUL dropped) removes characters from inside strings too.
+    nc = tk.func('Tokenizer._next_char')
+    char_vars: Set[str] = set()
+
+    def is_char(e: ast.AST) -> bool:
+        if isinstance(e, ast.Subscript) and not isinstance(e.slice, ast.Slice):
+            b = e.value
+            return (isinstance(b, ast.Attribute) and isinstance(b.value, ast.Name) and b.value.id == 'self') or (isinstance(b, ast.Name) and b.id in chunk_vars)
+        return isinstance(e, ast.Name) and e.id in char_vars
+    chunk_vars = {t.id for n in walk_no_nested(nc) if isinstance(n, ast.For) for t in ast.walk(n.target) if isinstance(t, ast.Name)}
+    for _ in range(3):
+        for n in walk_no_nested(nc):
+            if isinstance(n, ast.Assign) and is_char(n.value):
+                char_vars |= {t.id for t in n.targets if isinstance(t, ast.Name)}
+            if isinstance(n, ast.NamedExpr) and is_char(n.value):
+                char_vars.add(n.target.id)
+    for n in walk_no_nested(nc):
+        if isinstance(n, ast.Return):
+            v = n.value
+            if v is None or (isinstance(v, ast.Constant) and v.value is None) or is_char(v):
+                ctx.check('C02.T8', True, tk, n, '', func='Tokenizer._next_char', text=f'return {U(v) if v is not None else "None"}')
+            else:
+                ctx.shape('C02.T8', False, tk, n, f'_next_char returns `{U(v)}`, which is neither an element of the loaded chunk nor None: what the handler is given is then not decided here', func='Tokenizer._next_char')
+        tested = []
+        if isinstance(n, ast.Compare):
+            tested = [x for x in [n.left] + n.comparators if is_char(x)]
+        elif isinstance(n, ast.Match):
+            tested = [n.subject] if is_char(n.subject) else []
+        elif isinstance(n, ast.Call) and not (isinstance(n.func, ast.Name) and n.func.id in ('isinstance', 'type', 'len')):
+            tested = [x for x in list(n.args) + [k.value for k in n.keywords] if is_char(x)]
+        elif isinstance(n, (ast.If, ast.While, ast.IfExp)) and is_char(n.test):
+            tested = [n.test]
+        for x in tested:
+            ctx.check('C02.T8', False, tk, n, f'_next_char examines the character it read (`{U(n)[:80]}`): characters it treats specially never reach the string handler, so a string containing them does not come back as written',
+                      func='Tokenizer._next_char', text=f'character `{U(x)}` handed on unexamined')
+
+    # ---- T9: the obligations are stated for the handler started in its initial state.  Whatever the handler *tests* must therefore be
+    # fixed configuration (written only by __init__) or be set by the handler itself before its loop; state that other token functions
+    # write as well makes the value of a string depend on what was tokenized before it.
+    hs9 = tk.func('Tokenizer._handle_string')
+    cls_fns = {q: f for q, fl in tk.all_funcs().items() for f in fl if q.startswith(('Tokenizer.', 'BaseTokenizer.'))}
+    attr_writers: Dict[str, Set[str]] = {}
+    for q, f in cls_fns.items():
+        for n in walk_no_nested(f):
+            if isinstance(n, ast.Attribute) and isinstance(n.ctx, (ast.Store, ast.Del)) and isinstance(n.value, ast.Name) and n.value.id == 'self':
+                attr_writers.setdefault(n.attr, set()).add(q.split('.')[-1])
+    call_funcs = {id(n.func) for n in walk_no_nested(hs9) if isinstance(n, ast.Call)}
+    initialised: Set[str] = set()
+    for st in hs9.body:
+        if isinstance(st, (ast.While, ast.For)):
+            break
+        if isinstance(st, (ast.Assign, ast.AnnAssign)):
+            for t in (st.targets if isinstance(st, ast.Assign) else [st.target]):
+                if isinstance(t, ast.Attribute) and isinstance(t.value, ast.Name) and t.value.id == 'self':
+                    initialised.add(t.attr)
+    seen9: Set[str] = set()
+    for n in walk_no_nested(hs9):
+        if isinstance(n, ast.Attribute) and isinstance(n.ctx, ast.Load) and isinstance(n.value, ast.Name) and n.value.id == 'self' and id(n) not in call_funcs and n.attr not in seen9:
+            seen9.add(n.attr)
+            w = attr_writers.get(n.attr, set())
+            ctx.check('C02.T9', w <= {'__init__'} or n.attr in initialised, tk, n,
+                      f'_handle_string reads self.{n.attr}, which is also written by {sorted(w - {"__init__", "_handle_string"}) or sorted(w)} and is not set on entry to the handler: '
+                      'what a quoted string decodes to then depends on the text in front of it', func='Tokenizer._handle_string', text=f'self.{n.attr} is configuration or initialised by the handler')
 
     # ---- T3/T4/T5: transition function of _handle_string ------------------------------------------
     hs = tk.func('Tokenizer._handle_string')
@@ -530,6 +598,9 @@ def run(ctx: Any, prog: Program) -> None:
 
 
 MUTANTS = [
+    {'id': 'handler_tests_shared_cr_flag', 'file': 'tokenizer.py', 'find': "                if last_was_cr:\n                    last_was_cr = False\n                    continue\n                self.line_num += 1\n            else:\n                last_was_cr = False\n\n            if next_char == '\\\\' and self.allow_escapes:\n                # Escape text\n                escape = self._next_char()", 'replace': "                if last_was_cr or self._last_was_cr:\n                    last_was_cr = self._last_was_cr = False\n                    continue\n                self.line_num += 1\n            else:\n                last_was_cr = False\n\n            if next_char == '\\\\' and self.allow_escapes:\n                # Escape text\n                escape = self._next_char()", 'expect': 'C02.T9'},
+    {'id': 'next_char_filters_bom', 'file': 'tokenizer.py', 'find': "                        self._char_index = 0\n                        return chunk[0]\n", 'replace': "                        self._char_index = 0\n                        if chunk[0] == '\\uFEFF' and self.line_num == 1:\n                            return self._next_char()\n                        return chunk[0]\n", 'expect': 'C02.T8'},
+    {'id': 'ok_next_char_via_local', 'file': 'tokenizer.py', 'find': "                        self._char_index = 0\n                        return chunk[0]\n", 'replace': "                        self._char_index = 0\n                        first = chunk[0]\n                        return first\n", 'expect': None},
     {'id': 'fast_path_dollar_anchor', 'file': 'tokenizer.py', 'find': "    return (ESCAPE_MULTILINE_RE if multiline else ESCAPE_RE).sub(_escape_matcher, text)", 'replace': "    if _UNESCAPED_RE.match(text) is not None:\n        return text\n    return (ESCAPE_MULTILINE_RE if multiline else ESCAPE_RE).sub(_escape_matcher, text)", 'extra': [{'file': 'tokenizer.py', 'find': "def _escape_matcher(match", 'replace': "_UNESCAPED_RE = re.compile(r'[^\\x00-\\x1f\"\\'\\\\]*$')\n\n\ndef _escape_matcher(match"}], 'expect': 'C02.T2'},
     {'id': 'ok_fast_path_fullmatch', 'file': 'tokenizer.py', 'find': "    return (ESCAPE_MULTILINE_RE if multiline else ESCAPE_RE).sub(_escape_matcher, text)", 'replace': "    if _UNESCAPED_RE.fullmatch(text) is not None:\n        return text\n    return (ESCAPE_MULTILINE_RE if multiline else ESCAPE_RE).sub(_escape_matcher, text)", 'extra': [{'file': 'tokenizer.py', 'find': "def _escape_matcher(match", 'replace': "_UNESCAPED_RE = re.compile(r'[^\\x00-\\x1f\"\\'\\\\]*')\n\n\ndef _escape_matcher(match"}], 'expect': None},
     {'id': 'ok_fast_path_search', 'file': 'tokenizer.py', 'find': "    return (ESCAPE_MULTILINE_RE if multiline else ESCAPE_RE).sub(_escape_matcher, text)", 'replace': "    if not ESCAPE_RE.search(text):\n        return text\n    return (ESCAPE_MULTILINE_RE if multiline else ESCAPE_RE).sub(_escape_matcher, text)", 'expect': None},
